@@ -658,6 +658,7 @@ func c05Run(c *fw.Ctx, i int) {
 					sideJoin = append(sideJoin, lc)
 				}
 			}
+			sideFrom := s.Notify.Len()
 			if sp, err := ref.StartRtmpPublisher(s.RtmpAddr(), "live", sideName, 5*time.Second); err == nil {
 				sp.RC.SetChunkSize(4096)
 				for _, m := range hm.Seq {
@@ -667,6 +668,15 @@ func c05Run(c *fw.Ctx, i int) {
 				}
 				if !light {
 					time.Sleep(30 * time.Millisecond)
+				}
+				// lal handles a connection's messages in order, so the pub_stop that follows our close
+				// tells that every message of the side session has been dealt with: bounded time
+				sideKey := srv.Key(sp.RC.Conn)
+				sp.Close()
+				if _, ok := s.Notify.WaitSessionFrom(15*time.Second, sideFrom, "pub_stop", sideKey); !ok {
+					if _, started := s.Notify.WaitSessionFrom(0, sideFrom, "pub_start", sideKey); started {
+						c.Violate("stall/"+hm.Class, fmt.Sprintf("a stream opened with this message was not finished 15 s after its publisher had closed the connection (lal still busy with its messages) | cell=%s class=%s payload=%x", cell.Name, hm.Class, hm.Payload[:min(len(hm.Payload), 48)]), nil)
+					}
 				}
 				sp.Close()
 				c.Count("valid_order_sessions", 1)
